@@ -93,6 +93,43 @@ func genBatch(r *RNG, withBad bool, maxLines int) *Scenario {
 		func(w *World) string { return fmt.Sprintf("LeachingDepth=%d", r.Range(1, w.Soil.N())) },
 	}
 	badKinds := []string{"unknown-soil", "unknown-field", "bad-texture", "bad-fractions", "weather-gap", "till-in-crop", "startyear", "weather-late", "args-no-project", "args-no-plot", "args-bad-overwrite", "weather-short"}
+	applyBad := func(bl *BatchLine, w *World) {
+		if bl.Bad == "till-in-crop" && len(w.Rot) < 2 {
+			bl.Bad = "unknown-soil" // no crop in this world: the tillage class cannot be built
+		}
+		if bl.Bad == "weather-late" && w.earlyFieldDays() == 0 {
+			bl.Bad = "weather-gap"
+		}
+		switch bl.Bad {
+		case "unknown-soil":
+			bl.Extra = append(bl.Extra, "soilId=7ZZ")
+		case "unknown-field":
+			bl.Extra = append(bl.Extra, "plotNr=19001")
+		case "bad-texture":
+			bl.Extra = append(bl.Extra, "soilId=8T1")
+		case "bad-fractions":
+			bl.Extra = append(bl.Extra, "soilId=8F1", fmt.Sprintf("PTF=%d", r.Range(1, 4)))
+		case "weather-gap":
+			bl.Extra = append(bl.Extra, "fcode="+w.FCode+"gap")
+		case "args-no-project":
+			bl.Drop = []string{"project"}
+			bl.Extra = append(bl.Extra, "projekt="+w.Loc) // misspelt key
+		case "args-no-plot":
+			bl.Drop = []string{"plotNr"}
+			bl.Extra = append(bl.Extra, "plotnr="+w.Plot)
+		case "args-bad-overwrite":
+			bl.Extra = append(bl.Extra, "CropFile=PARAM.WW", r.PickS([]string{"c_NOSUCHPARAM=1", "c_TSUM_0=100", "c_TSUM_12=100", "c_PARTITION_2_9=0.5"}))
+		case "weather-short":
+			bl.Extra = append(bl.Extra, "fcode="+w.FCode+"short")
+		case "weather-late":
+			// the field starts before the first record of a series that another (good) line of the batch may have read already
+			bl.Extra = append(bl.Extra, "plotNr=19003", "fcode="+w.FCode+"late")
+		case "till-in-crop":
+			bl.Extra = append(bl.Extra, "plotNr=19002")
+		case "startyear":
+			bl.Extra = append(bl.Extra, fmt.Sprintf("StartYear=%d", w.Cfg.StartYear+r.PickI([]int{-1, 1})))
+		}
+	}
 	for i := 0; i < nl; i++ {
 		wi := r.Intn(nw)
 		w := sc.Worlds[wi]
@@ -106,46 +143,33 @@ func genBatch(r *RNG, withBad bool, maxLines int) *Scenario {
 			bl = BatchLine{World: prev.World, Extra: append([]string{}, prev.Extra...), Bad: prev.Bad, Drop: prev.Drop}
 		} else if withBad && r.Bool(0.4) {
 			bl.Bad = badKinds[r.Intn(len(badKinds))]
-			if bl.Bad == "till-in-crop" && len(w.Rot) < 2 {
-				bl.Bad = "unknown-soil" // no crop in this world: the tillage class cannot be built
-			}
-			if bl.Bad == "weather-late" && w.earlyFieldDays() == 0 {
-				bl.Bad = "weather-gap"
-			}
-			switch bl.Bad {
-			case "unknown-soil":
-				bl.Extra = append(bl.Extra, "soilId=7ZZ")
-			case "unknown-field":
-				bl.Extra = append(bl.Extra, "plotNr=19001")
-			case "bad-texture":
-				bl.Extra = append(bl.Extra, "soilId=8T1")
-			case "bad-fractions":
-				bl.Extra = append(bl.Extra, "soilId=8F1", fmt.Sprintf("PTF=%d", r.Range(1, 4)))
-			case "weather-gap":
-				bl.Extra = append(bl.Extra, "fcode="+w.FCode+"gap")
-			case "args-no-project":
-				bl.Drop = []string{"project"}
-				bl.Extra = append(bl.Extra, "projekt="+w.Loc) // misspelt key
-			case "args-no-plot":
-				bl.Drop = []string{"plotNr"}
-				bl.Extra = append(bl.Extra, "plotnr="+w.Plot)
-			case "args-bad-overwrite":
-				bl.Extra = append(bl.Extra, "CropFile=PARAM.WW", r.PickS([]string{"c_NOSUCHPARAM=1", "c_TSUM_0=100", "c_TSUM_12=100", "c_PARTITION_2_9=0.5"}))
-			case "weather-short":
-				bl.Extra = append(bl.Extra, "fcode="+w.FCode+"short")
-			case "weather-late":
-				// the field starts before the first record of a series that another (good) line of the batch may have read already
-				bl.Extra = append(bl.Extra, "plotNr=19003", "fcode="+w.FCode+"late")
-			case "till-in-crop":
-				bl.Extra = append(bl.Extra, "plotNr=19002")
-			case "startyear":
-				bl.Extra = append(bl.Extra, fmt.Sprintf("StartYear=%d", w.Cfg.StartYear+r.PickI([]int{-1, 1})))
-			}
+			applyBad(&bl, w)
 		}
 		if lw := sc.Worlds[bl.World]; withBad && bl.Bad == "" && lw.earlyFieldDays() > 0 && r.Bool(0.35) && !strings.Contains(strings.Join(bl.Extra, " "), "fcode=") {
 			bl.Extra = append(bl.Extra, "fcode="+lw.FCode+"late") // covered: the series begins on this field's first day
 		}
 		sc.Lines = append(sc.Lines, bl)
+	}
+	if withBad && r.Bool(0.25) {
+		// stratum: a storm of failures of ONE class (6-14 more lines failing the same way, anywhere in the batch) with
+		// good lines behind them: whatever an error path forgets to give back (a token, a slot, a lock, a buffer)
+		// runs out only after several failures of that path in one session
+		kind := badKinds[r.Intn(len(badKinds))]
+		wi := r.Intn(nw)
+		for k := r.Range(6, 14); k > 0; k-- {
+			bl := BatchLine{World: wi, Bad: kind}
+			applyBad(&bl, sc.Worlds[wi])
+			at := r.Intn(len(sc.Lines) + 1)
+			sc.Lines = append(sc.Lines[:at], append([]BatchLine{bl}, sc.Lines[at:]...)...)
+		}
+		for k := r.Range(1, 3); k > 0; k-- {
+			sc.Lines = append(sc.Lines, BatchLine{World: r.Intn(nw)})
+		}
+		nl = len(sc.Lines)
+		if sc.Params == nil {
+			sc.Params = map[string]string{}
+		}
+		sc.Params["storm"] = kind
 	}
 	sp := &SchedSpec{Sub: r.U64()}
 	sp.Concurrency = r.Range(1, min(16, nl+1))
